@@ -315,7 +315,8 @@ class Stacker(Transformer):
         )
 
         # Set dimensions and coordinates
-        self.dims_in = X.dims
+        # NOTE: Dataset.dims is a mapping; keep the plain names so the attribute can be serialized
+        self.dims_in = tuple(X.dims)
         self.coords_in = {dim: X.coords[dim] for dim in X.dims}
 
         return self
